@@ -52,6 +52,9 @@ def check_cycle(snap):
             out.append(('offline-user-served', f'upload {i} of offline user {u} started'))
         if u in busy_users:
             out.append(('busy-user-served', f'upload {i} started while user {u} already has an upload in progress'))
+    for i in S:
+        if i in snap.get('negotiating', []):
+            out.append(('upload-negotiation-started-twice', f'upload {i} already has a running initialize-upload task and is started again'))
     su = [ups[i][0] for i in S]
     if len(set(su)) != len(su):
         out.append(('two-uploads-one-user-in-cycle', f'one cycle started two uploads of one user: {su}'))
@@ -104,12 +107,22 @@ class Driver:
         self.viol = []         # (key, text, op index)
         self.rows = []         # (events, sel, codes)
         self.info = {n: ['UNKNOWN', False, False] for n in self.tw.names}
-        self.requested = {}    # id -> ticket of the PeerTransferRequest seen on the wire
+        self.answered = {}     # id -> tickets already answered by the peer
         self.order_bad = None
         self.nops = 0
 
     def uname(self, u):
         return f'u{u}'
+
+    def wire_ticket(self, k):
+        """Ticket of the latest PeerTransferRequest for upload k that reached the peer, else None."""
+        from aioslsk.protocol.messages import PeerTransferRequest
+        t = self.ts[k]
+        tk = None
+        for u, m in self.tw.peer_frames(t.username):
+            if isinstance(m, PeerTransferRequest.Request) and m.filename == t.remote_path:
+                tk = m.ticket
+        return None if tk in self.answered.get(k, ()) else tk
 
     def snapshot_uploads(self):
         return [(i, t.username, t.state.VALUE.name) for i, t in enumerate(self.ts)]
@@ -150,7 +163,6 @@ class Driver:
                     for i, t in enumerate(self.ts):
                         if t.username == u and t.remote_path == m.filename:
                             sent_ids.append(i)
-                            self.requested[i] = m.ticket
             if sent_ids != [i for i in created_ids if i in starting] and self.order_bad is None:
                 self.order_bad = (created_ids, sent_ids)
             for i in starting:
@@ -174,7 +186,8 @@ class Driver:
                 tw.settle(30)
         elif kind == 'C':
             snap = {'slots': tw.w.settings.transfers.limits.upload_slots, 'uploads': self.snapshot_uploads(),
-                    'users': self.users_now()}
+                    'users': self.users_now(),
+                    'negotiating': [i for i, t in enumerate(self.ts) if t._transfer_task is not None and not t._transfer_task.done()]}
             tw.created.clear()
             tw.cycle()
             sel = [self.ts.index(t) for k, t in tw.created if k == 'U']
@@ -186,12 +199,13 @@ class Driver:
             pass
         elif kind == 'Reply':
             k, allowed = op[1], op[2]
-            if k < len(self.ts) and code_of(self.ts[k]) == 2 and k in self.requested:
+            if k < len(self.ts) and code_of(self.ts[k]) == 2 and self.wire_ticket(k) is not None:
                 from aioslsk.protocol.messages import PeerTransferReply
                 from aioslsk.protocol.primitives import uint64
                 t = self.ts[k]
                 ep = tw.peer_ep(t.username)
-                ticket = self.requested.pop(k)
+                ticket = self.wire_ticket(k)
+                self.answered.setdefault(k, set()).add(ticket)
                 if allowed:
                     ep.feed(PeerTransferReply.Request(ticket, True).serialize())
                     n_eps = len(tw.eps)
@@ -243,6 +257,12 @@ class Driver:
             if u < len(tw.names):
                 tw.set_friend(self.uname(u), b)
                 evs.append(f'Friend {u} {"true" if b else "false"}')
+        elif kind == 'Rel':    # the server finally answers the held GetPeerAddress requests for user u
+            u = op[1]
+            if u < len(tw.names):
+                tw.addr_mode[self.uname(u)] = 'auto'
+                tw.release_addr(self.uname(u))
+                tw.settle(200)
         elif kind == 'T':      # free-running only: let virtual time pass
             tw.w.loop.run_for(op[1])
             tw.settle(100)
@@ -258,7 +278,8 @@ def gen_pop(rng):
     n = rng.randrange(1, 6)
     return {'slots': rng.choice([0, 1, 1, 2, 2, 3, 4]), 'nusers': n,
             'mode': rng.choice(['race', 'race', 'fallback']),
-            'refuse': [u for u in range(n) if rng.random() < 0.15]}
+            'refuse': [u for u in range(n) if rng.random() < 0.15],
+            'hold': [u for u in range(n) if rng.random() < 0.25]}
 
 
 def gen_prelude(rng, pop):
@@ -276,7 +297,7 @@ def next_op(rng, d: Driver, free_running=False):
     codes = [code_of(t) for t in d.ts]
     r = rng.random()
     nu = d.pop['nusers']
-    init = [i for i, c in enumerate(codes) if c == 2 and i in d.requested]
+    init = [i for i, c in enumerate(codes) if c == 2 and d.wire_ticket(i) is not None]
     upl = [i for i, c in enumerate(codes) if c == 3]
     other = [i for i, c in enumerate(codes) if c == 4]
     if free_running and r < 0.22:
@@ -285,8 +306,10 @@ def next_op(rng, d: Driver, free_running=False):
         return ['Q', rng.randrange(nu)]
     if r < 0.47 and not free_running:
         return ['C']
-    if r < 0.52:
+    if r < 0.50:
         return ['R']
+    if r < 0.54 and d.pop.get('hold'):
+        return ['Rel', rng.choice(d.pop['hold'])]
     if r < 0.64 and init:
         return ['Reply', rng.choice(init), rng.random() < 0.6]
     if r < 0.72 and upl:
@@ -307,6 +330,9 @@ def execute(pop, ops, driven=True):
     try:
         for u in pop.get('refuse', []):
             d.tw.mode[d.uname(u)] = 'refuse'
+        for u in pop.get('hold', []):
+            if u not in pop.get('refuse', []):
+                d.tw.addr_mode[d.uname(u)] = 'hold'
         for op in ops:
             d.do(op)
         # final settle so that the last cycle's tasks are observed too
@@ -318,14 +344,34 @@ def execute(pop, ops, driven=True):
         d.close()
 
 
+def lowering_script(rng):
+    """Directed family: fill k slots, lower the limit below the number of active uploads while several
+    other users wait, run cycles (nothing may start until enough uploads ended)."""
+    k = rng.choice([2, 3, 4])
+    pop = {'slots': k, 'nusers': 5, 'mode': rng.choice(['race', 'fallback']), 'refuse': [], 'hold': []}
+    ops = [['St', u, rng.choice(['ONLINE', 'AWAY']), rng.random() < 0.3] for u in range(5) if rng.random() < 0.6]
+    order = list(range(5))
+    rng.shuffle(order)
+    ops += [['Q', u] for u in order] + [['Q', rng.randrange(5)] for _ in range(rng.randrange(0, 3))]
+    ops += [['C'], ['R'], ['S', rng.randrange(0, k)], ['C'], ['R']]
+    return pop, ops
+
+
 def random_case(rng, nops, driven=True):
-    pop = gen_pop(rng)
+    if driven and rng.random() < 0.15:
+        pop, script = lowering_script(rng)
+    else:
+        pop, script = gen_pop(rng), None
     d = Driver(pop, driven=driven)
     ops = []
     try:
         for u in pop['refuse']:
             d.tw.mode[d.uname(u)] = 'refuse'
-        for op in gen_prelude(rng, pop) + [['Q', rng.randrange(pop['nusers'])] for _ in range(rng.randrange(0, 7))]:
+        for u in pop.get('hold', []):
+            if u not in pop['refuse']:
+                d.tw.addr_mode[d.uname(u)] = 'hold'
+        for op in (script if script is not None else
+                   gen_prelude(rng, pop) + [['Q', rng.randrange(pop['nusers'])] for _ in range(rng.randrange(0, 7))]):
             ops.append(op)
             d.do(op)
         for _ in range(nops):
@@ -431,6 +477,7 @@ def run(run: Run):
     run.assumptions += ['A1: no created initialize-upload task is still unstarted when the next management cycle runs',
                         'only uploads are modelled (downloads do not use upload slots)']
     run.prove(['tr_prio'])
+    run.cov['a1_checked_at_every_cycle'] = True
 
     quick = run.tier == 'quick'
     n_driven = 150 if quick else 800
@@ -477,7 +524,7 @@ def run(run: Run):
 
     # what the premise buys: two cycles inside one loop iteration (impossible for the real job) overshoot
     try:
-        d = Driver({'slots': 1, 'nusers': 2, 'mode': 'race', 'refuse': []})
+        d = Driver({'slots': 1, 'nusers': 2, 'mode': 'race', 'refuse': [], 'hold': []})
         try:
             d.ts.append(d.tw.add_upload('u0', 'f0'))
             d.ts.append(d.tw.add_upload('u1', 'f1'))
